@@ -1579,6 +1579,9 @@ func run(c *driver.Ctx) {
 			off = end
 		}
 		for _, t := range clientTypes[1:] { // "none" and the six codecs
+			if !g.enabled[ceOfType(t)] && rng.Intn(4) != 0 {
+				continue // a server that rejects the coding only shows client-side failures: mostly skip
+			}
 			g.poisonThenOverlap(rng, t)
 		}
 		g.stop()
